@@ -457,29 +457,38 @@ pub fn run<R>(cfg: Config, f: impl FnOnce() -> R) -> R {
         assert!(b.is_none(), "simrt: nested simulation");
         *b = Some(Sim::new(cfg, generation));
     });
-    let r = f();
-    // tear down: drop futures one by one without holding the borrow
-    loop {
-        let fut = with(|sim| {
-            for t in sim.tasks.iter_mut() {
-                if t.fut.is_some() {
-                    t.done = true;
-                    return Some((t.fut.take(), t.on_done.take()));
+    // tear down (also when `f` unwinds): drop futures one by one without holding the borrow
+    struct Teardown;
+    impl Drop for Teardown {
+        fn drop(&mut self) {
+            loop {
+                let fut = SIM.try_with(|s| {
+                    let mut b = s.borrow_mut();
+                    let sim = b.as_mut()?;
+                    for t in sim.tasks.iter_mut() {
+                        if t.fut.is_some() {
+                            t.done = true;
+                            return Some((t.fut.take(), t.on_done.take()));
+                        }
+                    }
+                    None
+                });
+                match fut {
+                    Ok(Some((f, cb))) => {
+                        let _ = std::panic::catch_unwind(AssertUnwindSafe(move || {
+                            drop(f);
+                            drop(cb);
+                        }));
+                    }
+                    _ => break,
                 }
             }
-            None
-        });
-        match fut {
-            Some((f, cb)) => {
-                drop(f);
-                drop(cb);
-            }
-            None => break,
+            let sim = SIM.try_with(|s| s.borrow_mut().take());
+            drop(sim);
         }
     }
-    let sim = SIM.with(|s| s.borrow_mut().take());
-    drop(sim);
-    r
+    let _teardown = Teardown;
+    f()
 }
 
 pub fn generation() -> u64 {
@@ -616,8 +625,8 @@ pub fn cancel(task: TaskId) {
     cancel_inner(task, false)
 }
 fn cancel_inner(task: TaskId, injected: bool) {
-    // may be called from inside a drop during teardown
-    let ok = SIM.with(|s| match s.try_borrow_mut() {
+    // may be called from inside a drop during teardown (even of the thread-local itself)
+    let ok = SIM.try_with(|s| match s.try_borrow_mut() {
         Ok(mut b) => {
             if let Some(sim) = b.as_mut() {
                 if let Some(t) = sim.tasks.get_mut(task as usize) {
@@ -636,7 +645,8 @@ fn cancel_inner(task: TaskId, injected: bool) {
             true
         }
         Err(_) => false,
-    });
+    })
+    .unwrap_or(true);
     assert!(ok, "simrt: cancel called while the simulator is borrowed");
 }
 
@@ -722,6 +732,7 @@ pub fn step() -> Step {
 
         // spurious poll (buggify): poll a live task nobody woke
         let mut chosen: Option<TaskId> = None;
+        let replaying = replaying && sim.cfg.replay.as_ref().is_some_and(|l| sim.replay_pos < l.len());
         if replaying {
             let l = sim.cfg.replay.as_ref().unwrap();
             if l[sim.replay_pos] == SPURIOUS && sim.replay_pos + 1 < l.len() {
@@ -1006,7 +1017,7 @@ impl Future for Sleep {
 impl Drop for Sleep {
     fn drop(&mut self) {
         if let Some(k) = self.key.take() {
-            SIM.with(|s| {
+            let _ = SIM.try_with(|s| {
                 if let Ok(mut b) = s.try_borrow_mut() {
                     if let Some(sim) = b.as_mut() {
                         if sim.generation == self.generation {
